@@ -9,7 +9,7 @@ from harness.props import sched_common as sc
 ID = 'C04'
 PROPS_FILE = 'Props/Props_C04.v'
 EXTRA_TARGETS = ['Sched/Case.vo']
-CONST_PARTS = ('sched',)
+CONST_PARTS = ('sched', 'srcfill')
 FAIL = sc.BITS['c04']
 MISMATCH = sc.BITS['model_oracle'] | sc.BITS['dates'] | sc.BITS['rows']
 
@@ -49,10 +49,35 @@ def robustness_stream(ctx):
     return stat
 
 
+def task_aware_stream(ctx):
+    """user-defined resources whose capacity depends on the task asked for (IResource.get_available_units(date, task)):
+    outside the model (its capacity is a function of resource and day); the clauses of the property that need no model
+    are evaluated directly on what the implementation returned"""
+    n = 40 if ctx.tier == 'quick' else 800
+    cases = [sc.gen_task_aware_case(ctx.rng) for _ in range(n)]
+    outs = []
+    for i in range(0, len(cases), 20):
+        outs += ctx.impl_run('sched_impl', cases[i:i + 20])
+    stat = {'cases': len(cases), 'returned': 0, 'raised': 0, 'tasks_judged': 0, 'blocked_pairs': sum(len(c['task_aware']) for c in cases)}
+    for c, o in zip(cases, outs):
+        if not o.get('outcome_only') or o.get('outcome') != 0:
+            stat['raised'] += 1
+            continue
+        stat['returned'] += 1
+        stat['tasks_judged'] += len(o.get('work', []))
+        probs = sc.robust_work_problems(c, o) + sc.robust_date_problems(c, o)
+        if probs:
+            ctx.failure('C04/%s/task-aware-resource' % c['dir'],
+                        'resource whose capacity depends on the task: ' + '; '.join(probs[:4]), {'case': c, 'observed': o})
+    return stat
+
+
 def run(ctx):
     stat = robustness_stream(ctx)
+    stat2 = task_aware_stream(ctx)
     sc.run_property(ctx, ID, FAIL, MISMATCH, extra=extra)
     ctx.coverage.setdefault('distribution', {})['robustness_stream_milestone_summaries'] = stat
+    ctx.coverage.setdefault('distribution', {})['robustness_stream_task_aware_resources'] = stat2
     ctx.assumptions += [
         'C04: capacities of a day lie in [0, 86400000000] scaled units (checked on every case); with a larger capacity a '
         'reservation can move a date by less than a microsecond (Example C04_cap_small_needed)',
